@@ -526,6 +526,9 @@ def _decay_matrix_sweep(self, tier, seed):
 
     cases = [{"kind": kind, "n": n, "nt": 2} for kind in ("decay-sequential", "decay-parallel", "decay-chain") for n in ((4, 6) if tier == "quick" else (4, 5, 6, 8))]
     cases += [{"kind": kind, "n": 3, "nt": 3, "axis_dtype": dt} for kind in ("decay-sequential", "decay-parallel", "decay-chain") for dt in ("int64", "int32")]
+    # products declared before their precursors (the K-matrix is upper triangular in the order of the initial concentration) and
+    # several K-matrices: the eigen path with LAPACK's own ordering of the eigenvalues, compared with expm natively
+    cases += [{"kind": kind, "n": n, "nt": 2} for kind in ("decay-chain-initial-order", "decay-two-kmatrices-reversed") for n in (2, 3, 5)]
 
     def env(case, rng):
         ks = sorted({round(rng.uniform(0.05, 3.0), 3) for _ in range(case["n"] * 3)})
